@@ -10,6 +10,10 @@
                 kind ∈ {text, own, foreign, err, http, empty, huge, html, latin1, gz, gzn, bin, cut, u16}
                 framing ∈ {l (Content-Length, keep-alive), n (no length, the peer closes), c (chunked transfer
                 encoding, keep-alive), k (Content-Length and `Connection: close`)}
+            | hb_<kind>_<framing>                         healthy 200 reply, JSON text of the given kind
+                kind ∈ {ascii, raw, esc, mix, ws, huge, gz}      framing as for sb
+            | nb_<kind>_<framing>                         200 reply whose body is not JSON text
+                kind ∈ {html, latin1, cut, lone, over, bin, gzn, extra}
             | q<infos>_<final>_<delta>_<cuts>             a reply delivered in pieces (harness/peer.py):
                 infos ∈ {c,C,p,P,e,E}*  (100 / 102 / 103; upper case: pause after it)
                 final = ok | s<code>[o|f|e|h] | b204 | b304
@@ -47,6 +51,36 @@ def bodyKind? (s : String) : Option Body :=
   | "text" => some .text | "own" => some .own | "foreign" => some .foreign | "err" => some .errObj | "http" => some .httpReply
   | "empty" => some .empty | "huge" => some .huge | "html" => some .html | "latin1" => some .latin1
   | "gz" => some .gzipDeclared | "gzn" => some .gzipBare | "bin" => some .binary | "cut" => some .cutChar | "u16" => some .utf16
+  | _ => none
+
+def okText? (s : String) : Option OkText :=
+  match s with
+  | "ascii" => some .ascii | "raw" => some .rawUtf8 | "esc" => some .escaped | "mix" => some .mixed | "ws" => some .spaced
+  | "huge" => some .huge | "gz" => some .gzip
+  | _ => none
+
+def badText? (s : String) : Option BadText :=
+  match s with
+  | "html" => some .html | "latin1" => some .latin1 | "cut" => some .cutChar | "lone" => some .loneCont
+  | "over" => some .overlong | "bin" => some .binary | "gzn" => some .gzipBare | "extra" => some .trailing
+  | _ => none
+
+def framing? (s : String) : Option Framing :=
+  match s with
+  | "l" => some .length | "n" => some .noLength | "c" => some .chunked | "k" => some .lengthClose
+  | _ => none
+
+/-- `hb_<kind>_<framing>` / `nb_<kind>_<framing>`: 200 replies by what their body holds. -/
+def body200? (s : String) : Option Beh :=
+  match s.splitOn "_" with
+  | ["hb", k, f] => do
+    let t ← okText? k
+    let fr ← framing? f
+    pure (.okBody t fr)
+  | ["nb", k, f] => do
+    let t ← badText? k
+    let fr ← framing? f
+    pure (.badBody200 t fr)
   | _ => none
 
 /-- `<code>_<kind>_<framing>` (the leading `sb` already removed). -/
@@ -128,6 +162,8 @@ def beh? (s : String) : Option Beh :=
     | 'x' :: 'n' :: ds => (String.ofList ds).toNat?.map .okExtraNow
     | 'x' :: 'l' :: ds => (String.ofList ds).toNat?.map .okThenLate
     | 'q' :: ds => (reply? (String.ofList ds)).map .scripted
+    | 'h' :: 'b' :: '_' :: _ => body200? s
+    | 'n' :: 'b' :: '_' :: _ => body200? s
     | _ => none
 
 def lib? (s : String) : Option Lib :=
